@@ -1,7 +1,7 @@
 SPECIFICATION TraceSpec
 CONSTANTS
   Runs = {r1, r2, r3}
-  Texts = {t1, t2}
+  Texts = {t1, t2, t3, t4, t5, t6}
   Chunks = 2
   UniqueTmp = TRUE
   DirectWrite = FALSE
